@@ -292,4 +292,17 @@ def big_messages() -> t.List[t.Any]:
         out.append(L.ExtendedResponse(1, [], res, None, b"w" * n))
     # content of exactly 65536 octets made of many small elements
     out.append(L.SearchResultReference(1, [], ["u" * 30] * 2048))
+    # more elements than the interpreter's recursion limit, in every list-valued position
+    n = 1500
+    out.append(L.SearchResultEntry(2**31, [], "cn=x", [L.PartialAttribute("a%d" % i, [b"v"]) for i in range(n)]))
+    out.append(L.SearchResultEntry(2**63, [], "cn=x", [L.PartialAttribute("member", [b"cn=%d" % i for i in range(n)])]))
+    out.append(L.SearchResultDone(1, [L.LDAPControl("1.2.%d" % i, bool(i % 2), b"v") for i in range(n)], L.LDAPResult(L.LDAPResultCode(2**31), "", "", ["ldap://h%d" % i for i in range(n)])))
+    out.append(L.SearchRequest(1, [], "", L.SearchScope.SUBTREE, L.DereferencingPolicy.ALWAYS, 2**31 - 1, 2**31, True,
+                               L.FilterAnd([L.FilterOr([L.FilterEquality("uid", b"u%d" % i) for i in range(n)]), L.FilterSubstrings("cn", b"i", [b"%d" % i for i in range(n)], b"f")]),
+                               ["attr%d" % i for i in range(n)]))
+    return out
+
+
+def _unused() -> t.List[t.Any]:
+    out: t.List[t.Any] = []
     return out
